@@ -75,8 +75,35 @@ def run(ctx):
             ctx.touch(f)
             uses = q.local_uses(f, t['dest']['l'])
             verdicts = []
+
+            def through(tt, as_option, depth=0):
+                # a combinator that keeps the failure (`map`, `map_err`: still a Result; `ok()`: a None that must then
+                # be matched / unwrapped, never defaulted): judge the consumers of its result instead
+                out_ = []
+                if tt['dest']['p'] or depth > 3:
+                    return ['ok' if as_option else 'map']
+                if tt['dest']['l'] == 0:
+                    out_.append('returned')
+                for bk, k2, y in q.local_uses(f, tt['dest']['l']):
+                    if k2 == 'discr':
+                        out_.append('match')
+                    elif k2 == 'arg':
+                        s2 = short(y['callee'].get('path') or y['callee'].get('def') or '')
+                        if s2 in ('map', 'map_err') and not as_option:
+                            out_ += through(y, False, depth + 1)
+                        elif s2 == 'ok' and not as_option:
+                            out_ += through(y, True, depth + 1)
+                        elif as_option and s2 not in ('expect', 'unwrap', 'ok_or', 'ok_or_else', 'branch'):
+                            out_.append('ok')       # the error was turned into a None that is then defaulted / ignored
+                        else:
+                            out_.append(s2)
+                    elif k2 in ('stmt', 'ref') and y['pl']['l'] == 0:
+                        out_.append('returned')
+                return out_ or ['ok' if as_option else 'map']
             for bj, kind, x in uses:
-                if kind == 'arg':
+                if kind == 'arg' and short(x['callee'].get('path') or x['callee'].get('def') or '') in ('map', 'map_err', 'ok'):
+                    verdicts += through(x, short(x['callee'].get('path') or x['callee'].get('def') or '') == 'ok')
+                elif kind == 'arg':
                     verdicts.append(short(x['callee'].get('path') or x['callee'].get('def') or ''))
                 elif kind == 'discr':
                     verdicts.append('match')
